@@ -41,17 +41,28 @@ def main():
     meta["confirmed"] = confirmed
     # run the checks against /repo with the patch applied
     results = {}
-    rc, out = sh("git -C /repo apply %s" % patch)
+    # SEEDED_MODE=worktree: the checks import flumine from the scratch worktree with the patch applied
+    # (PYTHONPATH) instead of patching /repo - used to triage several changes in parallel; the recorded
+    # result of record is the one of tools/seeded_rerun.py, which patches /repo itself
+    wtmode = os.environ.get("SEEDED_MODE") == "worktree"
+    if wtmode:
+        rc, out = sh("git apply %s" % patch, cwd=wt)
+    else:
+        rc, out = sh("git -C /repo apply %s" % patch)
     assert rc == 0, out
+    meta["mode"] = "worktree" if wtmode else "repo"
     try:
         for c in checks:
             t0 = time.time()
-            rcc, outc = sh("cd %s && ./check %s --tier quick" % (SNAP, c), timeout=3000)
+            rcc, outc = sh("cd %s && ./check %s --tier quick" % (SNAP, c), timeout=3000, env=({"PYTHONPATH": wt} if wtmode else None))
             lines = [l for l in outc.splitlines() if l.startswith(("VIOLATION", "KNOWN-FINDING", "DRIFT", "SPEC-ERROR", "MACHINERY-ERROR", "NOTE")) or " quick" in l]
             results[c] = {"exit": rcc, "wall_s": round(time.time() - t0, 1), "lines": [l[:400] for l in lines[:12]]}
             print(c, "exit", rcc, "|", " || ".join(l[:200] for l in lines[:6]))
     finally:
-        sh("git -C /repo checkout -- .")
+        if wtmode:
+            sh("git checkout -- flumine", cwd=wt)
+        else:
+            sh("git -C /repo checkout -- .")
         if SNAP == "/verif":
             sh("cd /verif && git checkout -- evidence 2>/dev/null; rm -f /verif/replays/*")
     meta["checks"] = results
